@@ -120,7 +120,7 @@ func dyOf(f float64) Dy {
 		d.Kind = "neg"
 		f = -f
 	}
-	fr, exp := math.Frexp(f)     // f = fr * 2^exp, 0.5 <= fr < 1
+	fr, exp := math.Frexp(f)       // f = fr * 2^exp, 0.5 <= fr < 1
 	mant := uint64(fr * (1 << 53)) // exact: 53 significant bits
 	e := exp - 53
 	for mant&1 == 0 {
